@@ -16,6 +16,17 @@ use tokio::sim::Rng;
 
 pub const ID: &str = "C20";
 
+/// Number of statement lines of a new document: a handful - or, one time in thirty, so many that
+/// the document has hundreds of diagnostics (a limit on how many are reported at once must have
+/// documents on both sides of it).
+fn line_count(rng: &mut Rng, usual_max: usize) -> usize {
+    if rng.chance(33) {
+        *rng.pick(&[40usize, 160, 300, 1100])
+    } else {
+        rng.range(0, usual_max)
+    }
+}
+
 fn doc_text(rng: &mut Rng, counter: &mut u32, lines: usize) -> String {
     let mut t = String::from("proc main() {\n  var v0: int;\n");
     for _ in 0..lines {
@@ -129,6 +140,14 @@ pub fn uri_pool(rng: &mut Rng) -> Vec<String> {
             }
         }
     }
+    // one session in twenty works on many documents (a table or a cache sized for a handful must
+    // have sessions on both sides of its size)
+    if rng.chance(50) {
+        let k = *rng.pick(&[5usize, 9, 17, 33]);
+        for i in 0..k {
+            v.push(format!("file:///w/many/m{i}.spl"));
+        }
+    }
     v
 }
 
@@ -182,7 +201,7 @@ pub fn generate(seed: u64, idx: u64) -> Scenario {
         }
         match (open, roll) {
             (None, 0..=9) => {
-                let lines = rng.range(0, 5);
+                let lines = line_count(&mut rng, 5);
                 let t = doc_text(&mut rng, &mut counter, lines);
                 s.open(&uri, &t);
             }
@@ -227,7 +246,7 @@ pub fn generate(seed: u64, idx: u64) -> Scenario {
                 for _ in 0..n {
                     let e = if rng.chance(80) {
                         // the whole text replaced (a change without range)
-                        let lines = rng.range(0, 4);
+                        let lines = line_count(&mut rng, 4);
                         Edit {
                             range: None,
                             text: doc_text(&mut rng, &mut counter, lines),
@@ -258,7 +277,7 @@ pub fn generate(seed: u64, idx: u64) -> Scenario {
             (Some(_), 17) => {
                 // re-open with new content (allowed by the protocol after close; some clients
                 // also send it without close)
-                let lines = rng.range(0, 4);
+                let lines = line_count(&mut rng, 4);
                 let t = doc_text(&mut rng, &mut counter, lines);
                 if rng.chance(700) {
                     s.close(&uri);
